@@ -231,12 +231,76 @@ theorem irr_members (fuel : Nat) (ih : Irr fuel) :
       exact ih.members _ _ rest _ ⟨e0, rfl⟩ (cond_of_stack rfl hc)
 
 
+theorem finishPoll_sbe {a b : St} (h : SameButErrexit a b) (p : Nat) (r t : Res) :
+    Rel (finishPoll p a r t) (finishPoll p b r t) := by
+  obtain ⟨e, rfl⟩ := h
+  unfold finishPoll
+  cases t with
+  | continue_ => cases r <;> exact rel_mk ⟨e, rfl⟩
+  | outOfFuel => cases r <;> exact rel_mk ⟨e, rfl⟩
+  | break_ d =>
+    cases d with
+    | interrupt x => cases x <;> cases r <;> exact rel_mk ⟨e, rfl⟩
+    | continue_ n => cases r <;> exact rel_mk ⟨e, rfl⟩
+    | break_ n => cases r <;> exact rel_mk ⟨e, rfl⟩
+    | return_ x => cases r <;> exact rel_mk ⟨e, rfl⟩
+    | exit x => cases r <;> exact rel_mk ⟨e, rfl⟩
+    | abort x => cases r <;> exact rel_mk ⟨e, rfl⟩
+
+/-- the poll after a command does not depend on the option either: the action runs under the same
+    `Condition` frame -/
+theorem rel_pollWith (run : St → List Item → St × Res)
+    (hrun : ∀ s s' l, SameButErrexit s s' → Cond s → Rel (run s l) (run s' l))
+    (s1 : St) (e : Bool) (r : Res) (hc : Cond s1) :
+    Rel (pollWith run s1 r) (pollWith run { s1 with errexit := e } r) := by
+  unfold pollWith
+  have hd : ({ s1 with errexit := e } : St).trapDue = s1.trapDue := rfl
+  rw [hd]
+  cases r with
+  | outOfFuel => exact rel_mk ⟨e, rfl⟩
+  | continue_ =>
+    simp only
+    cases s1.trapDue with
+    | none => exact rel_mk ⟨e, rfl⟩
+    | some body =>
+      simp only
+      have h1 := hrun ({ s1 with pending := false }.push .trap)
+        (({ s1 with pending := false, errexit := e } : St).push .trap) body ⟨e, rfl⟩
+        (cond_push _ _ (cond_of_stack rfl hc))
+      obtain ⟨s2, t, e2, hx, hy⟩ := rel_cases h1
+      rw [hx]
+      have hy' : run (({ s1 with errexit := e, pending := false } : St).push .trap) body =
+          ({ s2 with errexit := e2 }, t) := hy
+      rw [hy']
+      exact finishPoll_sbe ⟨e2, rfl⟩ _ _ _
+  | break_ d =>
+    simp only
+    cases s1.trapDue with
+    | none => exact rel_mk ⟨e, rfl⟩
+    | some body =>
+      simp only
+      have h1 := hrun ({ s1 with pending := false }.push .trap)
+        (({ s1 with pending := false, errexit := e } : St).push .trap) body ⟨e, rfl⟩
+        (cond_push _ _ (cond_of_stack rfl hc))
+      obtain ⟨s2, t, e2, hx, hy⟩ := rel_cases h1
+      rw [hx]
+      have hy' : run (({ s1 with errexit := e, pending := false } : St).push .trap) body =
+          ({ s2 with errexit := e2 }, t) := hy
+      rw [hy']
+      exact finishPoll_sbe ⟨e2, rfl⟩ _ _ _
+
 theorem irr_cmds (fuel : Nat) (ih : Irr fuel) :
     ∀ s s' cs, SameButErrexit s s' → Cond s → Rel (execCommands (fuel+1) s cs) (execCommands (fuel+1) s' cs) := by
   intro s s' cs h hc
   match cs with
   | [] => simp only [execCommands]; obtain ⟨e, rfl⟩ := h; exact rel_mk ⟨e, rfl⟩
-  | [c] => simp only [execCommands]; exact ih.cmd s s' c h hc
+  | [c] =>
+    simp only [execCommands]
+    have b1 := (bal fuel).cmd s c
+    obtain ⟨s1, r, e1, hx, hy⟩ := rel_cases (ih.cmd s s' c h hc)
+    rw [hx] at b1
+    rw [hx, hy]
+    exact rel_pollWith _ (fun a b l hab hca => ih.list a b l hab hca) s1 e1 r (cond_of_stack b1 hc)
   | c :: d :: t =>
     simp only [execCommands]
     obtain ⟨e0, rfl⟩ := h
@@ -471,6 +535,13 @@ theorem irr_cmd (fuel : Nat) (ih : Irr fuel) :
     cases k <;> simp only [applyErrexit_stack, hc0] <;> exact rel_mk ⟨e0, rfl⟩
   | specialErr w st => simp only [execCmd]; exact rel_finishSimple' _ e0 (by exact cond_of_stack rfl hc) _
   | trapExit body => simp only [execCmd]; exact rel_finishSimple' _ e0 (by exact cond_of_stack rfl hc) _
+  | trapSig body => simp only [execCmd]; exact rel_finishSimple' _ e0 (by exact cond_of_stack rfl hc) _
+  | raise n => simp only [execCmd]; exact rel_finishSimple' _ e0 (by exact cond_of_stack rfl hc) _
+  | raiseErr =>
+    simp only [execCmd]
+    rw [expansionError_cond { s with pending := true } (cond_of_stack rfl hc),
+      expansionError_cond ({ s with errexit := e0, pending := true } : St) (cond_of_stack rfl hc)]
+    exact rel_mk ⟨e0, rfl⟩
   | group body => simp only [execCmd]; exact ih.list s _ body ⟨e0, rfl⟩ hc
   | call name nargs =>
     simp only [execCmd, classify_errexit]
